@@ -36,6 +36,7 @@ fn flat_cmp(a: &V, b: &V) -> Option<Ordering> {
         _ => exact_num_cmp(a, b)?,
     })
 }
+#[allow(dead_code)]
 fn has_nan_in_map(v: &V, in_map: bool) -> bool {
     match v {
         V::Float(f) => in_map && f.is_nan(),
@@ -96,7 +97,7 @@ fn main() {
         // K-C20-temporal: a 3-cycle of the comparator
         one(vec![s("2020-x"), s("2020-01-02"), s("20200101")]),
         one(vec![s("20200101"), s("2020-x"), s("2020-01-02")]),
-        // K-C20-mapnan
+        // repaired (was K-C20-mapnan): maps containing NaN
         one(vec![nanmap(2.0), nanmap(f64::NAN), nanmap(1.0)]),
         // cross-type order, nulls and NaN placement
         one(vec![V::Null, V::Float(f64::NAN), V::Float(f64::INFINITY), V::Int(0), V::Bool(true), V::Bool(false), s("z"), s(""), V::List(vec![]), V::Map(BTreeMap::new()), V::NodeId(0)]),
@@ -157,8 +158,7 @@ fn main() {
         // ----- direct search -----
         let all_vals: Vec<&V> = c.keys.iter().flat_map(|(x, y)| if c.nkeys == 2 { vec![x, y] } else { vec![x] }).collect();
         let temporal = orc.any_temporal(&eng, &all_vals);
-        let mapnan = all_vals.iter().any(|v| has_nan_in_map(v, false));
-        let class = if temporal { Some("K-C20-temporal") } else if mapnan { Some("K-C20-mapnan") } else { None };
+        let class = if temporal { Some("K-C20-temporal") } else { None };
         let idx_of = |row: &Vec<V>| match &row[0] { V::Int(i) => *i as usize, _ => usize::MAX };
         // permutation of the input
         let mut seen: Vec<usize> = full.iter().map(idx_of).collect();
